@@ -139,6 +139,9 @@ func (e *Bounds) tainted1(v ssa.Value, env *taintEnv, up int) ssa.Value {
 
 func (e *Bounds) taintedField(f *types.Var, up int) ssa.Value {
 	st := e.taint
+	if e.TaintFieldOK != nil && !e.TaintFieldOK(f) {
+		return nil
+	}
 	switch st.fdone[f] {
 	case 1:
 		return st.fields[f]
